@@ -314,6 +314,36 @@ func checkC17(P *Program, r *Result, tier string) {
 		r.fatal("expected at least 40 error returns in the in-memory decoders, found %d", nret)
 	}
 	versionFirstRule(P, r, A)
+	// ERR-USED: no failure of a nested read is lost: the error result of every call is tested, returned or passed on
+	nerr := 0
+	for _, fn := range scope {
+		if fn.Blocks == nil {
+			continue
+		}
+		for _, c := range callsIn(fn) {
+			cc, ok := c.(*ssa.Call)
+			if !ok {
+				continue
+			}
+			sig := cc.Common().Signature()
+			ei := -1
+			for i := 0; i < sig.Results().Len(); i++ {
+				if isErrorType(sig.Results().At(i).Type()) {
+					ei = i
+				}
+			}
+			if ei < 0 {
+				continue
+			}
+			nerr++
+			ev := resultValue(cc, ei)
+			used := ev != nil && errExamined(ev, map[ssa.Value]bool{})
+			r.add("ERR-USED", shortName(fn), "call", "the error result of "+calleeFullName(cc)+" is examined (a failed nested read is not overwritten or dropped)", P.pos(instrPos(cc)), used, "")
+		}
+	}
+	if nerr < 10 {
+		r.fatal("expected at least 10 calls with an error result in the in-memory decoders, found %d", nerr)
+	}
 	// SIGN-FIRST: a size word whose negative values are answered with an error is not used for anything
 	// else before that test — otherwise a negative size surfaces as some other failure (or none)
 	nsign := 0
